@@ -246,6 +246,7 @@ func TestVerifC13WAL(t *testing.T) {
 			en := vC13DrawEntry(rt, classes)
 			// entry-level round trip
 			var raw []byte
+			slack := rapid.IntRange(0, 8).Draw(rt, "slack") // drawn outside the recover wrapper below
 			if e := vC13Safely("wal-entry", func() *vC13Err {
 				b, err := en.MarshalBinary()
 				if err != nil {
@@ -258,6 +259,23 @@ func TestVerifC13WAL(t *testing.T) {
 				}
 				if d := vC13EntryEq(en, back); d != "" {
 					return vC13Fail("wal-entry-roundtrip-differs", "%s: %s", vC13EntryKind(en), d)
+				}
+				// WAL.writeToLog encodes into a recycled buffer (bytesPool), whose previous content is arbitrary:
+				// the encoding must not depend on it
+				for _, fill := range []byte{0x01, 0xff, 0x00} {
+					dst := bytes.Repeat([]byte{fill}, en.MarshalSize()+slack)
+					enc, err := en.Encode(dst)
+					if err != nil {
+						return vC13Fail("wal-entry-marshal-error", "Encode of %s into a used buffer: %v", vC13EntryKind(en), err)
+					}
+					// (the byte strings themselves may differ: keys are encoded in map iteration order)
+					back2 := vC13NewEntry(en.Type())
+					if err := back2.UnmarshalBinary(append([]byte(nil), enc...)); err != nil {
+						return vC13Fail("wal-entry-encoding-depends-on-buffer-content", "%s encoded into a recycled buffer filled with 0x%02x does not decode: %v", vC13EntryKind(en), fill, err)
+					}
+					if d := vC13EntryEq(en, back2); d != "" {
+						return vC13Fail("wal-entry-encoding-depends-on-buffer-content", "%s encoded into a recycled buffer filled with 0x%02x decodes to something else: %s", vC13EntryKind(en), fill, d)
+					}
 				}
 				return nil
 			}); e != nil {
